@@ -638,6 +638,11 @@ def c09(rep, tier, seed, wd):
             else:
                 for p in pids:
                     rep.note_foreign(p)
+    # what the builder appended must BE the RFC fingerprint: the specification (CRC-32 in TLA+) accepts the message
+    for case, obs, exp, hang in triples:
+        if case["src"].startswith("fingerprinted message") and not exp["parse"]["ok"]:
+            rep.violation("%s: the serialised message does not satisfy the FINGERPRINT relation of the specification (%s)" % (
+                case["src"], json.dumps(exp["parse"])), {"kind": "codec_case", "case": slim(case)})
     nb = sum(1 for g in gm if not g["gen"]["by_ext"])
     if nb == 0 or len(pick) < 3:
         raise ToolError("vacuity: no builder-fingerprinted messages generated")
@@ -675,6 +680,17 @@ def c04(rep, tier, seed, wd):
                 muts.append({"bytes": m, "creds": g["creds"][:1], "src": "sealed message %d, byte %d := %d" % (g["id"], pos, v)})
     triples = run_pipeline(base + unsealed + muts, wd, "c04", trace=False, chunk=3000)
     report_must(rep, "C04", triples, "case")
+    for case, obs, exp, hang in triples:
+        if not case["src"].startswith("sealed message") or "byte" in case["src"] or "bit " in case["src"]:
+            continue
+        legal = "trunc=12" not in case["src"] and "trunc=18" not in case["src"] and "trunc=36" not in case["src"]
+        if not exp["parse"]["ok"]:
+            rep.violation("%s: rejected by the specification's parser: %s" % (case["src"], json.dumps(exp["parse"])), {"kind": "codec_case", "case": slim(case)})
+        elif legal:
+            plan = exp["acc"]["plan"]
+            if not (plan["present"] and plan["lenOk"] and oracle_mac_ok(plan, oracle_key(exp["keyplans"][0]))):
+                rep.violation("%s: the integrity attribute is not the RFC HMAC of the message under the sealing credentials (independent oracle)" % case["src"],
+                              {"kind": "codec_case", "case": slim(case)})
     stat = {"validated_ok": 0, "failed": 0, "missing": 0, "rejected_by_parser": 0, "illegal_length": 0}
     algs = {}
     for case, obs, exp, hang in triples:
